@@ -373,6 +373,12 @@ class Interp:
                 pass
             except (Unsupported, NotImplementedError) as u:
                 paths.append(Path(list(self.st.pc), "unsupported", str(u) or type(u).__name__, self.st))
+            except (AttributeError, TypeError, KeyError, IndexError, ValueError, AssertionError, RecursionError) as ex:
+                # the interpreter or a model met a construct it does not handle (changed code under contract can do
+                # that at any time): that path is not generated - undecided, never a crash of the whole check
+                import traceback as _tb
+                where = _tb.extract_tb(ex.__traceback__)[-1]
+                paths.append(Path(list(self.st.pc), "unsupported", f"engine limit: {type(ex).__name__}: {ex} (at {where.filename.rsplit('/', 1)[-1]}:{where.lineno})", self.st))
             work.extend(self.st.newwork)
             if len(paths) > max_paths:
                 paths.append(Path([], "unsupported", "path explosion", self.st))
